@@ -12,7 +12,7 @@
    commit for D5; the pinned behaviour is kept for the refutation at the end. *)
 From Coq Require Import List Arith NArith Bool.
 From Discv5V Require Import Generated.Params Model.KBucket Model.Nodes Model.Admission
-  Proofs.KBMembers Proofs.Admission.
+  Proofs.KBMembers Proofs.Admission Proofs.KBucketTable Proofs.AdmissionGap.
 Import ListNotations.
 Local Open Scope N_scope.
 
@@ -82,6 +82,146 @@ Theorem C12_discovered_update_rule :
    exists v0, In (e_id e, v0) (tmem t) /\ e_seq (rec_of (vid v0)) < e_seq e).
 Proof. exact discovered_one_mem. Qed.
 Print Assumptions C12_discovered_update_rule.
+
+(* What happens to the STORED entry, completely (Proofs/AdmissionGap.v).  [t1] is the table as the
+   look-up of the record's node id leaves it (KBucketsTable::entry applies the pending node of that
+   bucket, like every table access); [stored_older] says that the node id is stored - as a node or
+   as a pending node - with a record of a strictly smaller sequence number.  One record of
+   discovered() then does exactly one of four things: nothing at all (the local id), nothing more
+   than the look-up (no stored entry, or the stored record is not older: lower or equal sequence
+   numbers never replace or remove anything), the update of the stored value (admissible and
+   newer; the routing table's update_node applies its own filters), or the removal of the entry
+   (newer, but not contactable or rejected by the table filter). *)
+Theorem C12_discovered_stored_entry_cases :
+  forall rec_of tf mode c t src e now,
+  let t1 := fst (t_entry c t (e_id e) ALook now) in
+  fst (discovered_one rec_of tf mode c t src e now) =
+    if e_id e =? local t then t
+    else if negb (stored_older rec_of t1 e) then t1
+    else if tf e && contactable mode e then fst (t_update_node c t1 (e_id e) (to_val e) None now)
+    else fst (t_entry c t1 (e_id e) ARemove now).
+Proof. exact discovered_one_table. Qed.
+Print Assumptions C12_discovered_stored_entry_cases.
+
+Theorem C12_stored_older_meaning :
+  forall rec_of t1 e,
+  stored_older rec_of t1 e =
+    match stored t1 (e_id e) with
+    | Some (_, v) => e_seq (rec_of (vid v)) <? e_seq e
+    | None => false
+    end.
+Proof. intros. unfold stored_older, stored_rec. destruct (stored t1 (e_id e)) as [[b v]|]; reflexivity. Qed.
+Print Assumptions C12_stored_older_meaning.
+
+(* A record that is not contactable or fails the table filter is dropped from the list handed to
+   the lookup and brings nothing into the table ... *)
+Theorem C12_discovered_inadmissible_brings_nothing :
+  forall rec_of tf mode c t src e now,
+  tf e && contactable mode e = false ->
+  snd (discovered_one rec_of tf mode c t src e now) = false /\
+  forall x, In x (tmem (fst (discovered_one rec_of tf mode c t src e now))) -> In x (tmem t).
+Proof. exact discovered_one_inadmissible. Qed.
+Print Assumptions C12_discovered_inadmissible_brings_nothing.
+
+(* ... and if it is newer than the record of a stored NODE, that node is removed: in a table
+   satisfying the routing-table invariant (C07; every table of the service does,
+   C12_service_tables_satisfy_the_invariant) the node id is in no bucket and no pending slot
+   afterwards. *)
+Theorem C12_discovered_inadmissible_newer_removes_node :
+  forall rec_of tf mode c t src e now v,
+  TInv c t -> e_id e <> local t -> tf e && contactable mode e = false ->
+  let t1 := fst (t_entry c t (e_id e) ALook now) in
+  stored t1 (e_id e) = Some (false, v) -> e_seq (rec_of (vid v)) < e_seq e ->
+  ~ In (e_id e) (tkeys (fst (discovered_one rec_of tf mode c t src e now))).
+Proof. exact discovered_one_inadmissible_newer_removes. Qed.
+Print Assumptions C12_discovered_inadmissible_newer_removes_node.
+
+(* The other newer case: a newer record that IS contactable and passes the table filter.  The
+   stored entry is updated in place - a node stays a node, a pending node stays pending - and then
+   carries the new record; the only exception is a failure reported by the routing table's
+   update_node (its own table / bucket filter rejected the new value and removed the entry, see
+   C14 / C16), and then the record is also dropped from the list handed to the lookup. *)
+Theorem C12_discovered_admissible_newer_updates_entry :
+  forall rec_of tf mode c t src e now,
+  e_id e <> local t -> tf e && contactable mode e = true ->
+  let t1 := fst (t_entry c t (e_id e) ALook now) in
+  stored_older rec_of t1 e = true ->
+  fst (discovered_one rec_of tf mode c t src e now) = fst (t_update_node c t1 (e_id e) (to_val e) None now) /\
+  match snd (t_update_node c t1 (e_id e) (to_val e) None now) with
+  | UFailed _ => snd (discovered_one rec_of tf mode c t src e now) = false
+  | _ => exists pending v0 v',
+           stored t1 (e_id e) = Some (pending, v0) /\
+           stored (fst (discovered_one rec_of tf mode c t src e now)) (e_id e) = Some (pending, v') /\
+           vid v' = e_vid e
+  end.
+Proof. exact discovered_one_admissible_newer_updates. Qed.
+Print Assumptions C12_discovered_admissible_newer_updates_entry.
+
+Theorem C12_service_tables_satisfy_the_invariant :
+  forall rec_of tf mode fx c loc ops, TInv c (arun rec_of tf mode fx c (new_table loc) ops).
+Proof. exact Proofs.ServiceInv.service_table_tinv. Qed.
+Print Assumptions C12_service_tables_satisfy_the_invariant.
+
+(* OBSERVATION (not a violation of the property text: the entry that stays still holds its old,
+   admissible record).  The removal does NOT happen when the node id is stored as the PENDING node
+   of its bucket: discovered() calls PendingEntry::remove, which is KBucket::remove(key), and that
+   function only searches [nodes] - for a pending entry it is a no-op (the same holds for
+   Discv5::remove_node and the UnverifiableEnr report).  The witness is reachable through the
+   service's own operations: local id 0, IPv4 mode, no filters; the user adds the sixteen nodes
+   32..47 (bucket 5 is full, all disconnected), a session with node 48 makes it the pending node of
+   that bucket; a NODES response then carries a newer record of node 48 (seq 2 > 1) without an IPv4
+   address.  Node 48 stays pending with its old record and will enter the bucket once the pending
+   timeout has elapsed. *)
+Theorem C12_pending_entry_not_removed_observation :
+  let rec_of := obs_rec in
+  let tf := fun _ : enr => true in
+  let e := obs_rec 148 in
+  let t := arun rec_of tf Ip4 repaired obs_cfg (new_table 0) obs_ops in
+  Forall (fun on => op_interned rec_of (fst on)) obs_ops /\ interned rec_of e /\
+  TInv obs_cfg t /\ e_id e <> local t /\ tf e && contactable Ip4 e = false /\
+  (exists v, stored (fst (t_entry obs_cfg t (e_id e) ALook 3)) (e_id e) = Some (true, v) /\
+             e_seq (rec_of (vid v)) < e_seq e) /\
+  let t' := fst (discovered_one rec_of tf Ip4 obs_cfg t 40 e 3) in
+  stored t' (e_id e) = Some (true, to_val (obs_rec 48)) /\ In (e_id e) (tkeys t').
+Proof. exact pending_entry_not_removed_observation. Qed.
+Print Assumptions C12_pending_entry_not_removed_observation.
+
+(* the hypotheses of C12_discovered_admissible_newer_updates_entry hold on a non-trivial instance:
+   node 6 is stored with r1 (seq 1); a NODES response carries r2 (seq 2, another address) *)
+Example C12_update_example :
+  let r1 := {| e_vid := 1; e_id := 6; e_seq := 1; e_udp4 := Some (167772161, 30303); e_udp6 := None; e_sub := Some 655360; e_size := 120 |} in
+  let r2 := {| e_vid := 2; e_id := 6; e_seq := 2; e_udp4 := Some (167772162, 30303); e_udp6 := None; e_sub := Some 655360; e_size := 120 |} in
+  let rec_of := fun v => if v =? 1 then r1 else r2 in
+  let tf := fun _ : enr => true in
+  let c := {| max_incoming := 16; pending_timeout := 60; bfilter := None; tfilter := None |} in
+  let t := arun rec_of tf Ip4 repaired c (new_table 5) [(AEstablished r1 false, 1)] in
+  e_id r2 <> local t /\ tf r2 && contactable Ip4 r2 = true /\
+  stored_older rec_of (fst (t_entry c t (e_id r2) ALook 3)) r2 = true /\
+  snd (t_update_node c (fst (t_entry c t (e_id r2) ALook 3)) (e_id r2) (to_val r2) None 3) = UUpdated /\
+  tmem (fst (discovered_one rec_of tf Ip4 c t 9 r2 3)) = [(6, to_val r2)].
+Proof. cbv zeta. split; [vm_compute; discriminate|]. repeat split; vm_compute; reflexivity. Qed.
+Print Assumptions C12_update_example.
+
+(* the hypotheses of C12_discovered_inadmissible_newer_removes_node hold on a non-trivial instance:
+   node 6 is in the table (a session) with record r1 (seq 1); a NODES response carries r2 for the
+   same id with seq 2 and no IPv4 address; afterwards the table is empty *)
+Example C12_removal_example :
+  let r1 := {| e_vid := 1; e_id := 6; e_seq := 1; e_udp4 := Some (167772161, 30303); e_udp6 := None; e_sub := Some 655360; e_size := 120 |} in
+  let r2 := {| e_vid := 2; e_id := 6; e_seq := 2; e_udp4 := None; e_udp6 := None; e_sub := None; e_size := 100 |} in
+  let rec_of := fun v => if v =? 1 then r1 else r2 in
+  let tf := fun _ : enr => true in
+  let c := {| max_incoming := 16; pending_timeout := 60; bfilter := None; tfilter := None |} in
+  let t := arun rec_of tf Ip4 repaired c (new_table 5) [(AEstablished r1 false, 1)] in
+  TInv c t /\ e_id r2 <> local t /\ tf r2 && contactable Ip4 r2 = false /\
+  stored (fst (t_entry c t (e_id r2) ALook 3)) (e_id r2) = Some (false, to_val r1) /\
+  e_seq (rec_of (vid (to_val r1))) < e_seq r2 /\
+  tmem t = [(6, to_val r1)] /\
+  tmem (fst (discovered_one rec_of tf Ip4 c t 9 r2 3)) = [].
+Proof.
+  cbv zeta. split; [apply Proofs.ServiceInv.service_table_tinv|].
+  split; [vm_compute; discriminate|]. repeat split; vm_compute; reflexivity.
+Qed.
+Print Assumptions C12_removal_example.
 
 (* the hypotheses of C12_entries_admissible hold for a non-trivial history: a session, an add by
    the user, a discovered newer record, a pong, a failure; the table ends with two entries *)
